@@ -348,10 +348,11 @@ verdict judge( std::uint8_t op, unsigned len, const std::uint8_t* req, ex e, con
 
 // ---------------------------------------------------------------------------------------------------------------------
 // prepared states
-enum state_id { S_FRESH, S_VERSION, S_CONN_PARAM, S_CONN_PARAM_INITIATING, S_VERSION_PENDING, S_ENCRYPTED, S_COUNT };
+enum state_id { S_FRESH, S_VERSION, S_CONN_PARAM, S_CONN_PARAM_INITIATING, S_VERSION_PENDING, S_ENCRYPTED, S_SECOND_AFTER_VERSION, S_SECOND_AFTER_OWN_VERSION, S_COUNT };
 const char* state_name( int s )
 {
-    static const char* n[] = { "fresh", "version-exchanged", "own-conn-param-update-pending", "own-conn-param-request-pending", "own-version-request-pending", "encrypted" };
+    static const char* n[] = { "fresh", "version-exchanged", "own-conn-param-update-pending", "own-conn-param-request-pending", "own-version-request-pending", "encrypted",
+                               "second-connection-after-version-exchange", "second-connection-after-own-version-exchange" };
     return n[ s ];
 }
 
@@ -376,6 +377,27 @@ bool prepare( int s, conn_params p, std::string& err )
     switch ( s )
     {
     case S_FRESH: break;
+    case S_SECOND_AFTER_VERSION: case S_SECOND_AFTER_OWN_VERSION:
+    {   // a first connection with a completed version exchange, ended by the central; then a new connection of the same link layer
+        if ( s == S_SECOND_AFTER_OWN_VERSION )
+        {
+            if ( !ll->remote_versions_request() ) { err = "procedure not started"; return false; }
+            ll->sim_empty_event(); ll->sim_empty_event();
+            if ( !( collect().n_ctrl == 1 && collect().pdu[ 0 ] == VERSION_IND ) ) { err = "own LL_VERSION_IND not transmitted"; return false; }
+        }
+        ctrl( { VERSION_IND, 0x08, 0x00, 0x02, 0x00, 0x00 } );
+        ll->sim_empty_event();
+        if ( s == S_SECOND_AFTER_VERSION && !( collect().n_ctrl == 1 && collect().pdu[ 0 ] == VERSION_IND ) ) { err = "version exchange failed"; return false; }
+        ctrl( { TERMINATE_IND, 0x13 } );
+        if ( rec.closed != 1 ) { err = "first connection not closed"; return false; }
+        std::memset( &rec, 0, sizeof rec );
+        std::uint8_t ci[ 40 ];
+        llw::connect_ind c; c.interval = p.interval; c.timeout = p.timeout;
+        ll->sim_adv_received( ci, c.build( ci, ll->log.adv_data ) );
+        ll->sim_empty_event();
+        if ( rec.established != 1 ) { err = "second connection not established"; return false; }
+        break;
+    }
     case S_VERSION:
         ctrl( { VERSION_IND, 0x08, 0x00, 0x02, 0x00, 0x00 } );
         ll->sim_empty_event();
